@@ -388,8 +388,28 @@ func (req *SrvReq) Respond() {
 		return
 	}
 
+	verifPoint("resp_post", conn, req)
+	if rop, ok := (req.Conn.Srv.ops).(SrvReqProcessOps); ok {
+		rop.SrvReqRespond(req)
+	} else {
+		req.PostProcess()
+	}
+
+	verifPoint("resp_enq", conn, req)
+	if (status & reqFlush) == 0 {
+		select {
+		case conn.reqout <- req:
+		case <-conn.done:
+			/* the connection is gone, nobody will send the reply */
+		}
+	}
+
 	verifPoint("resp_unlink", conn, req)
-	/* remove the request and all requests flushing it */
+	/*
+	 * remove the request and all requests flushing it -- only now that its
+	 * reply is queued: until then a Tflush (or a request reusing the tag)
+	 * must still find it, or their replies could overtake this one
+	 */
 	conn.Lock()
 	nextreq := req.prev
 	if nextreq != nil {
@@ -414,22 +434,6 @@ func (req *SrvReq) Respond() {
 		flushreqs = req.flushreq
 	}
 	conn.Unlock()
-
-	verifPoint("resp_post", conn, req)
-	if rop, ok := (req.Conn.Srv.ops).(SrvReqProcessOps); ok {
-		rop.SrvReqRespond(req)
-	} else {
-		req.PostProcess()
-	}
-
-	verifPoint("resp_enq", conn, req)
-	if (status & reqFlush) == 0 {
-		select {
-		case conn.reqout <- req:
-		case <-conn.done:
-			/* the connection is gone, nobody will send the reply */
-		}
-	}
 
 	verifPoint("resp_next", conn, req)
 	// process the next request with the same tag (if available)
